@@ -735,8 +735,9 @@ def cursor_writes(ctx, report):
                 report.count('C03.R4')
                 report.touch(f)
                 verdict = classify_cursor_write(f, st)
-                key = '%s@_parsed_length %s %s' % (f.construct, '+=' if isinstance(st, ast.AugAssign) and isinstance(st.op, ast.Add) else
-                                                  ('-=' if isinstance(st, ast.AugAssign) else '='), ast.unparse(st.value))
+                inc = cursor_increment(st)
+                key = '%s@_parsed_length %s %s' % (f.construct, '+=' if inc is not None else ('-=' if isinstance(st, ast.AugAssign) else '='),
+                                                  ast.unparse(inc if inc is not None else st.value))
                 if verdict is None:
                     q = '%s.%s' % (cname, name)
                     if q in REVIEWED_CURSOR and reviewed_cursor_fact(q, f, st):
@@ -748,7 +749,8 @@ def cursor_writes(ctx, report):
 
 
 def classify_cursor_write(f, st):
-    val = st.value
+    inc = cursor_increment(st)
+    val = inc if inc is not None else st.value        # ``c = c + x`` is classified like ``c += x``
     src = ast.unparse(val)
     defs = {}
     for n in ast.walk(f.node):
@@ -760,6 +762,14 @@ def classify_cursor_write(f, st):
                         defs.setdefault(e.id, []).append((n.value, i))
             elif isinstance(t, ast.Name):
                 defs.setdefault(t.id, []).append((n.value, None))
+    # ``pair = f(); a = pair[0]; n = pair[1]`` is ``a, n = f()``
+    for name, ds in list(defs.items()):
+        for v, i in list(ds):
+            if i is None and isinstance(v, ast.Subscript) and isinstance(v.value, ast.Name) and isinstance(v.slice, ast.Constant) and \
+                    isinstance(v.slice.value, int) and len(defs.get(v.value.id, [])) == 1 and defs[v.value.id][0][1] is None and \
+                    isinstance(defs[v.value.id][0][0], ast.Call):
+                ds.remove((v, i))
+                ds.append((defs[v.value.id][0][0], v.slice.value))
 
     def from_helper(name, idx=1):
         for v, i in defs.get(name, []):
@@ -767,9 +777,15 @@ def classify_cursor_write(f, st):
                 return v.func.attr
         return None
 
+    dec = None
     if isinstance(st, ast.AugAssign) and isinstance(st.op, ast.Sub):
+        dec = st.value
+    elif isinstance(st, ast.Assign) and isinstance(st.value, ast.BinOp) and isinstance(st.value.op, ast.Sub) and \
+            ast.unparse(st.value.left) == 'self._parsed_length':
+        dec = st.value.right
+    if dec is not None:
         # parse_bytes undoing its own advance inside the NotEnoughData handler
-        if isinstance(val, ast.Name) and from_helper(val.id):
+        if isinstance(dec, ast.Name) and from_helper(dec.id):
             return 'undo of a checked advance'
         return None
     if isinstance(val, ast.Name):
@@ -908,18 +924,35 @@ def helper_returns_checked_length(f, name, idx, depth=0):
     return True
 
 
+def cursor_increment(st):
+    """the amount a cursor write adds: ``self._parsed_length += X`` and ``self._parsed_length = self._parsed_length + X`` both
+    give X; None for a plain assignment of another value"""
+    if isinstance(st, ast.AugAssign) and isinstance(st.op, ast.Add):
+        return st.value
+    if isinstance(st, ast.Assign) and isinstance(st.value, ast.BinOp) and isinstance(st.value.op, ast.Add):
+        for a, b in ((st.value.left, st.value.right), (st.value.right, st.value.left)):
+            if ast.unparse(a) == 'self._parsed_length':
+                return b
+    return None
+
+
 def reviewed_cursor_fact(q, f, st):
-    src = ast.unparse(f.node)
+    calls_before = [n for n in ast.walk(f.node) if isinstance(n, ast.Call) and isinstance(n.func, ast.Attribute) and
+                    isinstance(n.func.value, ast.Name) and n.func.value.id == 'self' and n.lineno < st.lineno]
+    inc = cursor_increment(st)
     if q.endswith('parse_mpint') and not q.endswith('ssh_mpint'):
-        return src.index('self._parse_mpint(') < src.index('self._parsed_length +=')
+        return any(n.func.attr == '_parse_mpint' for n in calls_before)
     if q.endswith('parse_ssh_mpint'):
-        return src.index('self._parse_mpint(') < src.index('self._parsed_length +=') and 'NotEnoughData' in src
+        return any(n.func.attr == '_parse_mpint' for n in calls_before) and 'NotEnoughData' in ast.unparse(f.node)
     if q.endswith('parse_string_null_terminated'):
-        return '_parse_string_by_length(name, length, length' in src and ast.unparse(st.value).endswith('+ 1')
+        by_length = [n for n in calls_before if n.func.attr == '_parse_string_by_length' and len(n.args) >= 3 and
+                     ast.unparse(n.args[1]) == ast.unparse(n.args[2])]
+        return bool(by_length) and inc is not None and isinstance(inc, ast.BinOp) and isinstance(inc.op, ast.Add) and \
+            any(isinstance(x, ast.Constant) and x.value == 1 for x in (inc.left, inc.right))
     if q.endswith('_parse_string_array'):
-        return ast.unparse(st.value) == 'item_offset'
+        return isinstance(st, ast.Assign) and ast.unparse(st.value) == 'item_offset'
     if q.endswith('parse_date_time'):
-        return ast.unparse(st.value) == 'len(self._parsable)'
+        return isinstance(st, ast.Assign) and ast.unparse(st.value) == 'len(self._parsable)'
     return False
 
 
